@@ -1,7 +1,7 @@
 /-
   C14 — small-step interleaving semantics of N threads sharing one `Rmcp` interface.
 
-  Mirrors `pyipmi/interfaces/rmcp.py:Rmcp._send_and_receive` (max_retries = 0, unbridged
+  Mirrors `pyipmi/interfaces/rmcp.py:Rmcp._send_and_receive` (any `max_retries`, unbridged
   target) together with `IpmiMsg.pack` / `Session.increment_sequence_number`, cut at every
   access to state shared between threads.  One call of `_send_and_receive` is the path
   (`Sys.seqLocked = true`, the source with fixes/C04-2.diff: the lock is taken FIRST)
@@ -26,15 +26,24 @@
     ssChk     if session.sequence_number > 0xffffffff
     ssWrap        session.sequence_number = 1
     ssHdr k   _pack_sequence_number(): load (k further loads follow: 0 for none/password, 1 for MD5)
-    send      self._sock.sendto(pdu)                      datagram carries the value loaded last
-    recv      self._q.get() if not self._q.empty() else self._sock.recvfrom()   (socket.timeout if nothing there)
+    send      self._sock.sendto(pdu)                      datagram carries the value loaded last; received_retry = 0
+    recv      self._q.get() if not self._q.empty() else self._sock.recvfrom()
               rx_filter(header, rx_data): request sequence and command must match
+              nothing there → socket.timeout → `except socket.timeout: retry += 1`: while `retry <= max_retries`
+              the loop body runs again — `_send_ipmi_msg` packs AGAIN (back to actLoad: the retransmission takes the
+              next session sequence number) and transmits, all inside the same lock hold; else the loop ends
+              (→ release, RetryError)
     requeue   (filter said no: the frame is dropped; before fix e9c3a5d it was put back into `_q`)
+              received_retry += 1: while `received_retry <= max_retries` read again (→ recv), else RetryError
     release   leaving the `with` block; then `return rx_data[6:-1]` or `raise RetryError`
 
-  The BMC answers every datagram at once: the reply (tagged with the serial number of the
-  datagram it answers, echoing its request sequence and command) is appended to the socket's
-  receive queue.
+  (`Par.packOnce = true` is the VARIANT "the session wrapper is built once, before the retry loop": after a
+  time-out the stored datagram is transmitted again — back to `send`, with the session sequence number it had.)
+
+  The BMC answers a datagram at once — the reply (tagged with the serial number of the datagram it answers,
+  echoing its request sequence and command) is appended to the socket's receive queue — unless the network
+  loses the reply: `Par.loss` is the loss plan of the run (the reply to datagram number k is lost iff
+  `loss[k] = true`; any list: every loss pattern).  A lost reply is never delivered; its sender times out.
 
   Three kinds of thread run that call path:
 
@@ -61,6 +70,7 @@
 
   `Sys.join` selects the stopper: `false` = as shipped (`return stopped.set`), `true` = set and join.
   `Sys.seqLocked` selects where the IPMB sequence number is allocated (see above).
+  `Sys.par` holds the retry budget (`Rmcp.max_retries`), the loss plan and the packing variant.
 
 
   `step s t` runs the next atomic action of thread `t` (`none`: no such thread, finished, or
@@ -86,8 +96,17 @@ structure Shape where
   qGetInLock : Nat                  -- `self._q.get` calls inside the block
   qPut : Nat                        -- `self._q.put` calls (re-queuing)
   packInSar : Nat                   -- `.pack(` calls in `_send_and_receive` itself (packing outside `_send_ipmi_msg`)
-  packInSend : Nat                  -- `.pack(` calls in `_send_ipmi_msg`
-  sendBuildsIpmiMsg : Bool          -- `_send_ipmi_msg` builds `IpmiMsg(self._session)` itself
+  packInSend : Nat                  -- `IpmiMsg(…).pack(` calls `_send_ipmi_msg` reaches (itself or through a helper method)
+  sendBuildsIpmiMsg : Bool          -- `_send_ipmi_msg` builds `IpmiMsg(self._session)` (itself or through that helper)
+  retryLoop : Bool                  -- the lock block ends with `retry = 0; while retry <= self.max_retries: try: <send>;
+                                    -- received = False; received_retry = 0; while received is False and received_retry <=
+                                    -- self.max_retries: <read, filter, received_retry += 1>; if not received: raise RetryError;
+                                    -- break; except socket.timeout: retry += 1`, the one transmission being the first
+                                    -- statement of the `try` and every reception being in the inner loop
+  packBeforeLoop : Nat              -- session wrappers built in the lock block BEFORE the retry loop
+  packPerAttempt : Bool             -- the transmission inside the loop builds the wrapper itself, unconditionally, on
+                                    -- every attempt (`_send_ipmi_msg(tx_data)`): the VARIANT (`false`: it is handed a
+                                    -- datagram built before the loop — `Par.packOnce`)
   packIncs : Nat                    -- `increment_sequence_number()` calls in `IpmiMsg.pack`
   packIncGuardedByActivated : Bool
   seqAdd : Nat                      -- `_inc_sequence_number`: (n + seqAdd) % seqMod
@@ -115,12 +134,16 @@ sequence bump and the packing (`ssLoad` … `ssHdr`, inside `_send_ipmi_msg`), t
 (`send`) and the reception (`recv`, reading `_q` first; the drain of the socket, if any, is inside too);
 nothing is put back into `_q`; every caller,
 the keep-alive included, runs this program; the keep-alive loop and `close_session` are the ones described
-above.  Two things are left open: what the stopper returned by `call_repeatedly` does after setting the
-event (`join = false` as shipped, `join = true` with fixes/C14-1.diff), and whether the sequence number is
-allocated and read inside the lock block (`seqLocked = true` with fixes/C04-2.diff) or before it (as shipped). -/
-def Shape.expected (join : Bool) (seqLocked : Bool := true) : Shape :=
+above; the retry loop is the one described above.  Three things are left open: what the stopper returned by
+`call_repeatedly` does after setting the
+event (`join = false` as shipped, `join = true` with fixes/C14-1.diff), whether the sequence number is
+allocated and read inside the lock block (`seqLocked = true` with fixes/C04-2.diff) or before it (as shipped),
+and whether the session wrapper is built by the transmission of every attempt (`perAttempt = true`, the source) or
+once before the retry loop (`false`: a retransmission repeats the session sequence number). -/
+def Shape.expected (join : Bool) (seqLocked : Bool := true) (perAttempt : Bool := true) : Shape :=
   { lockBlocks := 1, incFirst := true, seqInLock := seqLocked, incCalls := 1, ioOutsideLock := 0, sendsInLock := 1, recvsInLock := 1,
-    qGetInLock := 1, qPut := 0, packInSar := 0, packInSend := 1, sendBuildsIpmiMsg := true, packIncs := 1,
+    qGetInLock := 1, qPut := 0, packInSar := 0, packInSend := 1, sendBuildsIpmiMsg := true,
+    retryLoop := true, packBeforeLoop := if perAttempt then 0 else 1, packPerAttempt := perAttempt, packIncs := 1,
     packIncGuardedByActivated := true, seqAdd := 1, seqMod := 64, keepAliveLocked := true, rawLocked := true,
     msgLocked := true, sessAdd := 1, sessLimit := 0xffffffff, sessWrapTo := 1,
     loopWaitsThenCalls := true, loopSwallowsOnlyTimeout := true, stopperSets := true, stopperJoins := join,
@@ -164,7 +187,19 @@ structure Thr where
   mine : Nat := 0              -- serial of the datagram sent in this call
   got : Option Reply := none   -- reply accepted by the filter
   results : List CallRes := [] -- newest first
+  retry : Nat := 0             -- `retry` of the current call: time-outs so far
+  rretry : Nat := 0            -- `received_retry` of the current attempt: frames the filter rejected
 deriving DecidableEq, Repr
+
+/-- Constants of a run: the retry budget, what the network loses, and the packing variant. -/
+structure Par where
+  maxRetries : Nat := 0        -- Rmcp.max_retries
+  loss : List Bool := []       -- the reply to datagram number k is lost iff loss[k] = true (beyond the list: delivered)
+  packOnce : Bool := false     -- VARIANT: the session wrapper is built once, before the retry loop
+deriving DecidableEq, Repr
+
+/-- Is the reply to datagram number `k` lost? -/
+def lostAt (loss : List Bool) (k : Nat) : Bool := loss.getD k false
 
 structure Sys where
   nextSeq : Nat                -- Rmcp.next_sequence_number
@@ -180,6 +215,7 @@ structure Sys where
   stopped : Bool := false      -- the Event of call_repeatedly
   join : Bool := true          -- variant: the stopper joins the keep-alive thread
   seqLocked : Bool := true     -- variant: the IPMB sequence number is allocated inside the lock block
+  par : Par := {}              -- retry budget, loss plan, packing variant
 deriving Repr
 
 def inLock : PC → Bool
@@ -202,7 +238,7 @@ def nextPc (th : Thr) (ok : Bool) : PC :=
     else if th.todo - 1 = 0 then .done else if th.todo - 1 = 1 then .await else .idle
 
 def afterCall (th : Thr) (r : CallRes) : Thr :=
-  { th with results := r :: th.results, got := none,
+  { th with results := r :: th.results, got := none, retry := 0, rretry := 0,
             todo := if th.kind = .keepAlive then th.todo else th.todo - 1,
             pc := nextPc th r.isOk }
 
@@ -240,8 +276,8 @@ def stepThr (s : Sys) (t : Nat) (th : Thr) : Option Sys :=
   | .ssHdr (k + 1) => some (s.upd t { th with reg := s.sessSeq, pc := .ssHdr k })
   | .send =>
     some ({ s with wire := .tx t s.serial th.reg th.hdr th.cmd :: s.wire,
-                   sock := s.sock ++ [Reply.mk s.serial th.hdr th.cmd],
-                   serial := s.serial + 1 }.upd t { th with mine := s.serial, pc := .recv })
+                   sock := if lostAt s.par.loss s.serial then s.sock else s.sock ++ [Reply.mk s.serial th.hdr th.cmd],
+                   serial := s.serial + 1 }.upd t { th with mine := s.serial, rretry := 0, pc := .recv })
   | .recv =>
     match s.q with
     | r :: q' =>
@@ -252,10 +288,18 @@ def stepThr (s : Sys) (t : Nat) (th : Thr) : Option Sys :=
       | r :: sk =>
         some ({ s with sock := sk, wire := .rx t r.serial :: s.wire }.upd t
           { th with got := some r, pc := if r.rq = th.hdr ∧ r.cmd = th.cmd then .release else .requeue })
-      | [] => some (s.upd t { th with got := none, pc := .release })
+      | [] =>
+        -- socket.timeout: `retry += 1`; the next attempt (packing again — or, variant, the stored datagram), or
+        -- the budget is used up: the loop ends and RetryError is raised after the block
+        some ({ s with wire := .to t th.mine :: s.wire }.upd t
+          { th with got := none, retry := th.retry + 1,
+                    pc := if th.retry + 1 ≤ s.par.maxRetries then (if s.par.packOnce then .send else .actLoad)
+                          else .release })
   | .requeue =>
-    -- since the fix of C04 (e9c3a5d) a frame the filter rejects is dropped, not put back into `_q`
-    some (s.upd t { th with got := none, pc := .release })
+    -- since the fix of C04 (e9c3a5d) a frame the filter rejects is dropped, not put back into `_q`;
+    -- `received_retry += 1`: read again within the budget, else RetryError (raised inside the block)
+    some (s.upd t { th with got := none, rretry := th.rretry + 1,
+                            pc := if th.rretry + 1 ≤ s.par.maxRetries then .recv else .release })
   | .release =>
     some ({ s with lock := none }.upd t
       (afterCall th (match th.got with
@@ -355,6 +399,9 @@ structure Cfg where
   closer : Option Nat := none    -- the application thread that ends with `close_session`
   join : Bool := true            -- the stopper of `call_repeatedly` joins the thread (false: as shipped)
   seqLocked : Bool := true       -- sequence number allocated inside the lock block (false: as shipped)
+  maxRetries : Nat := 0          -- Rmcp(max_retries=…)
+  loss : List Bool := []         -- loss plan: the reply to datagram number k is lost iff loss[k] = true
+  packOnce : Bool := false       -- variant: session wrapper built once before the retry loop (true: NOT the source)
 
 def initThr (closer : Option Nat) (i : Nat) (p : Nat × Nat) : Thr :=
   if closer = some i then
@@ -367,6 +414,7 @@ def initKa (n : Nat) : Thr := { pc := .kaWait, todo := n, cmd := 1, kind := .kee
 def init (c : Cfg) : Sys :=
   { nextSeq := c.nextSeq, sessSeq := c.sessSeq, lock := none, q := [], sock := [], serial := 0,
     wire := [], xl := c.xl, join := c.join, seqLocked := c.seqLocked,
+    par := { maxRetries := c.maxRetries, loss := c.loss, packOnce := c.packOnce },
     thr := c.threads.mapIdx (initThr c.closer) ++ (match c.ka with | some n => [initKa n] | none => []) }
 
 /-- The wire log in transmission order. -/
